@@ -2,6 +2,9 @@
    Print Assumptions.  The driver parses this file's output. *)
 From ZV.Common Require Import Base.
 From ZV.C02 Require Import Model ModelRec RunCase ProofsBits ProofsMatch ProofsSeq ProofsFrame ProofsRec.
+From ZV.C02 Require Import ModelComp RunCaseX ProofsComp ProofsHuffC.
+From ZV.C01 Require ProofsHeap.
+From Coq Require Import Permutation.
 Open Scope N_scope.
 
 (* BitWriter::write_bits appends the low `bits` bits of the value to the stream (a little-endian
@@ -171,6 +174,112 @@ Check far1short_old_reader_refuted :
     decompress_match [] 4 (le16 d ++ [l] ++ tail) out.
 Print Assumptions far1short_old_reader_refuted.
 
+(* ---------------------------------------------------------------------------------------------
+   Compressors end to end (ModelComp.v over the coder models of coq/C01)
+   --------------------------------------------------------------------------------------------- *)
+(* RansCompressor: header = 256 x u32 counts (the counts `new` made) | u32 original size | rANS bytes.
+   Trained on any non-empty corpus of fewer than 2^32 bytes (every u32 count exact), every payload of at most
+   MAX_DECOMPRESSED_SIZE bytes over the corpus' symbols is compressed, and the frame is decoded by the same instance
+   and by an instance trained on any other corpus. *)
+Theorem rans_compressor_roundtrip :
+  forall train other x,
+    train <> [] -> nlen train < W32 -> other <> [] -> nlen other < W32 ->
+    Forall (fun b => b < 256) x -> (forall s, In s x -> In s train) ->
+    nlen x <= L.MAX_DECOMPRESSED_SIZE ->
+    exists c1 c2 z, rans_new train = Some c1 /\ rans_new other = Some c2 /\
+      rans_compress c1 x = Some z /\ rans_decompress c1 z = Some x /\ rans_decompress c2 z = Some x.
+Proof. exact rans_compressor_roundtrip_proof. Qed.
+Check rans_compressor_roundtrip :
+  forall train other x,
+    train <> [] -> nlen train < W32 -> other <> [] -> nlen other < W32 ->
+    Forall (fun b => b < 256) x -> (forall s, In s x -> In s train) ->
+    nlen x <= L.MAX_DECOMPRESSED_SIZE ->
+    exists c1 c2 z, rans_new train = Some c1 /\ rans_new other = Some c2 /\
+      rans_compress c1 x = Some z /\ rans_decompress c1 z = Some x /\ rans_decompress c2 z = Some x.
+Print Assumptions rans_compressor_roundtrip.
+
+(* the frame alone, for any instance holding 256 counts below 2^32 and their table *)
+Theorem rans_frame_roundtrip :
+  forall c x z, length (rc_counts c) = 256%nat -> Forall (fun v => v < W32) (rc_counts c) ->
+    rans_encoder_new (rc_counts c) = Some (rc_table c) -> nlen x <= L.MAX_DECOMPRESSED_SIZE ->
+    rans_compress c x = Some z -> forall c', rans_decompress c' z = Some x.
+Proof. exact ProofsComp.rans_frame_roundtrip. Qed.
+Check rans_frame_roundtrip :
+  forall c x z, length (rc_counts c) = 256%nat -> Forall (fun v => v < W32) (rc_counts c) ->
+    rans_encoder_new (rc_counts c) = Some (rc_table c) -> nlen x <= L.MAX_DECOMPRESSED_SIZE ->
+    rans_compress c x = Some z -> forall c', rans_decompress c' z = Some x.
+Print Assumptions rans_frame_roundtrip.
+
+(* counts stored as saturating u16 (a narrower layout): the decoder rebuilds another table than the encoder used *)
+Theorem rans_counts_u16_refuted :
+  exists raw, length raw = 256%nat /\ Forall (fun v => v < W32) raw /\
+    rans_encoder_new (map (fun c => N.min c 65535) raw) <> rans_encoder_new raw.
+Proof. exact rans_counts_u16_refuted_proof. Qed.
+Check rans_counts_u16_refuted :
+  exists raw, length raw = 256%nat /\ Forall (fun v => v < W32) raw /\
+    rans_encoder_new (map (fun c => N.min c 65535) raw) <> rans_encoder_new raw.
+Print Assumptions rans_counts_u16_refuted.
+
+(* DictCompressor: no header; the token stream of DictionaryCompressor (min 3 / max 258) decodes to the payload on
+   every instance, for every payload of at most MAX_DECOMPRESSED_SIZE bytes *)
+Theorem dict_compressor_roundtrip :
+  forall train other x, train <> [] -> other <> [] -> nlen x <= L.MAX_DECOMPRESSED_SIZE ->
+  exists c1 c2 z, dict_new train = Some c1 /\ dict_new other = Some c2 /\
+    dict_compress c1 x = Some z /\ dict_decompress c1 z = Some x /\ dict_decompress c2 z = Some x.
+Proof. exact dict_compressor_roundtrip_proof. Qed.
+Check dict_compressor_roundtrip :
+  forall train other x, train <> [] -> other <> [] -> nlen x <= L.MAX_DECOMPRESSED_SIZE ->
+  exists c1 c2 z, dict_new train = Some c1 /\ dict_new other = Some c2 /\
+    dict_compress c1 x = Some z /\ dict_decompress c1 z = Some x /\ dict_decompress c2 z = Some x.
+Print Assumptions dict_compressor_roundtrip.
+
+(* HuffmanCompressor: header = u32 tree size | serialised code table (u16 entry count; per entry u8 symbol, u8 code
+   length, packed bits) | u32 original size | packed code bits.  For every training corpus (syms = its distinct bytes,
+   heap = whatever tree the BinaryHeap loop built - C01's heap_run), both HashMap iteration orders (serialize and
+   build_decoding_tree_from_codes) and every payload over the corpus' symbols shorter than 2^32 bytes: compress
+   succeeds and every instance decodes the frame. *)
+Theorem huffman_compressor_roundtrip :
+  forall syms heap ord1 ord2 x,
+    (length syms <= 256)%nat -> NoDup syms -> ProofsHeap.heap_run (map H.Leaf syms) heap ->
+    (forall t, Permutation (ord1 t) t) -> (forall t, Permutation (ord2 t) t) ->
+    (forall s, In s x -> In s syms) -> nlen x < W32 ->
+    exists ht z, H.ht_from_heap syms heap = Some ht /\
+      huffc_compress (huff_new_from ord1 ht) x = Some z /\
+      forall other, huffc_decompress ord2 other z = Some x.
+Proof. exact huffman_compressor_roundtrip_proof. Qed.
+Check huffman_compressor_roundtrip :
+  forall syms heap ord1 ord2 x,
+    (length syms <= 256)%nat -> NoDup syms -> ProofsHeap.heap_run (map H.Leaf syms) heap ->
+    (forall t, Permutation (ord1 t) t) -> (forall t, Permutation (ord2 t) t) ->
+    (forall s, In s x -> In s syms) -> nlen x < W32 ->
+    exists ht z, H.ht_from_heap syms heap = Some ht /\
+      huffc_compress (huff_new_from ord1 ht) x = Some z /\
+      forall other, huffc_decompress ord2 other z = Some x.
+Print Assumptions huffman_compressor_roundtrip.
+
+(* HuffmanTree::deserialize(serialize(table)) for any table with distinct keys and prefix-free codes shorter than 256
+   bits, in whatever order the two HashMaps are iterated: the same table and a decoding tree that agrees with it *)
+Theorem huffman_tree_serialize_roundtrip :
+  forall ord2 tb, (forall t, Permutation (ord2 t) t) ->
+  NoDup (map fst tb) -> (length tb <= 256)%nat -> tb <> [] -> H.prefix_free tb = true -> short_codes tb ->
+  exists t, deser_tree ord2 (ser_table tb) = Some (H.mkHT (Some t) tb) /\ H.wf_ht (H.mkHT (Some t) tb) = true.
+Proof. exact deser_ser_tree. Qed.
+Check huffman_tree_serialize_roundtrip :
+  forall ord2 tb, (forall t, Permutation (ord2 t) t) ->
+  NoDup (map fst tb) -> (length tb <= 256)%nat -> tb <> [] -> H.prefix_free tb = true -> short_codes tb ->
+  exists t, deser_tree ord2 (ser_table tb) = Some (H.mkHT (Some t) tb) /\ H.wf_ht (H.mkHT (Some t) tb) = true.
+Print Assumptions huffman_tree_serialize_roundtrip.
+
+(* the original-size field written through `as u16` (a narrower layout) loses a payload of 64 KiB *)
+Theorem huffman_size_u16_refuted :
+  exists x z, nlen x < W32 /\ huffc_compress_size16 (huff_new_from (fun t => t) ht_a) x = Some z /\
+              huffc_decompress (fun t => t) (huff_new_from (fun t => t) ht_a) z <> Some x.
+Proof. exact huff_size16_refuted_proof. Qed.
+Check huffman_size_u16_refuted :
+  exists x z, nlen x < W32 /\ huffc_compress_size16 (huff_new_from (fun t => t) ht_a) x = Some z /\
+              huffc_decompress (fun t => t) (huff_new_from (fun t => t) ht_a) z <> Some x.
+Print Assumptions huffman_size_u16_refuted.
+
 (* non-vacuity of the hypotheses above *)
 Example legacy_stream_inhabited :
   let x := [7; 7; 7; 7; 9; 7; 9; 7; 9; 116; 104; 101] in
@@ -189,3 +298,20 @@ Proof. split; [|cbn; lia]. constructor; [|constructor]. intros x z H. cbn in H. 
 Example winv_inhabited : exists w, write_bits writer_new 5 3 = Some w /\ winv w /\ wlen w = 3.
 Proof. destruct writer_new_inv as (I & _ & L). destruct (write_bits_spec writer_new 5 3 I ltac:(lia)) as (w & E & I' & _ & L').
   exists w. split; [exact E|]. split; [exact I'|]. rewrite L', L. reflexivity. Qed.
+Example rans_compressor_roundtrip_inhabited :
+  let train := [104; 101; 108; 108; 111; 32; 119; 111; 114; 108; 100] in
+  train <> [] /\ nlen train < W32 /\ Forall (fun b => b < 256) [108; 111; 108] /\ (forall s, In s [108; 111; 108] -> In s train).
+Proof. exact rans_compressor_inhabited. Qed.
+Example huffman_compressor_roundtrip_inhabited :
+  ProofsHeap.heap_run (map H.Leaf [97; 98; 99]) (H.Node (H.Leaf 99) (H.Node (H.Leaf 97) (H.Leaf 98))) /\ NoDup [97; 98; 99].
+Proof.
+  split.
+  - eapply ProofsHeap.heap_merge with (a := H.Leaf 97) (b := H.Leaf 98) (l' := [H.Leaf 99]); [reflexivity|].
+    eapply ProofsHeap.heap_merge with (a := H.Leaf 99) (b := H.Node (H.Leaf 97) (H.Leaf 98)) (l' := []); [apply perm_swap|].
+    apply ProofsHeap.heap_done.
+  - repeat constructor; cbn; intuition; discriminate.
+Qed.
+Example huffman_tree_serialize_inhabited :
+  let tb := [(99, [false]); (97, [true; false]); (98, [true; true])] in
+  NoDup (map fst tb) /\ H.prefix_free tb = true /\ short_codes tb.
+Proof. cbn zeta. split; [repeat constructor; cbn; intuition; discriminate|]. split; [reflexivity|]. repeat constructor; cbn; lia. Qed.
